@@ -264,3 +264,32 @@ c.ensures('breaks-target-the-end-loop', "result is True ==> ghost('breaks_fixed'
 c.ensures('exit-jump-lands-on-end-loop', "result is True ==> exit_jump_target(_p) == end_index(_p) - 1")
 c.ensures('back-jump-lands-on-the-test', "result is True ==> instr(emitted(_p)[-2], 'JUMP', JumpCondition.ALWAYS) and emitted(_p)[-2].param1 < 0")
 c.ensures('loop-context-popped', 'result is True ==> len(context_stack._loop_stack) == len(old(context_stack._loop_stack))')
+
+
+# ---- Parser.parse: every compile starts afresh (C17) and ends in accept or a message (C06)
+for pre in ('UNKNOWN', 'EOF', 'NAME'):
+    c = contract(P, 'Parser.parse', serves=['C06', 'C17'], uses=('parser', 'dispatch'), name='Parser.parse[cursor was on %s]' % pre)
+    def _setup(b, case, pre=pre):
+        pr = PL.parser(b, first_token=PL.concrete_token(b.I, pre, 'x' if pre == 'NAME' else ''))
+        pr.attrs['_error_output'] = b.sym('str', 'old_errors')
+        b.ghost('runtime_loaded', 0)
+        rt = b.I.load_module('bardolph.runtime.i_runtime').ns['Runtime']
+        from pyvc.values import Opaque, PyDict
+        lib.provide(b, rt, Opaque('runtime', {'get_fns': lambda I_, o, a, k: PyDict()}))
+        return {'self': pr, 'input_string': b.sym('str', 'text')}
+    c.setup(_setup)
+    c.ensures('accept-or-message', 'result is True or (falsy(result) and errs() > old(errs()))')
+    c.ensures('cursor-starts-on-the-first-token-of-the-new-text', 'tokens_consumed() >= 1')
+    c.ensures('code-generator-and-context-were-cleared', "ghost('cleared') is not None and len(ghost('cleared')) >= 2")
+
+c = method('next_token', serves=('C06',), progress=False)
+c.ensures('advances-unless-at-the-end', "result is True and not old(self._current_token._token_type is TokenTypes.EOF) ==> tokens_consumed() == old(tokens_consumed()) + 1")
+
+c = contract(P, 'Parser.trigger_error', serves=['C06'], name='Parser.trigger_error')
+def _setup(b, case):
+    pr = PL.parser(b)
+    pr.attrs['_error_output'] = b.sym('str', 'earlier_messages')
+    return {'self': pr, 'message': b.sym('str', 'msg')}
+c.setup(_setup)
+c.ensures('rejects', 'result is False')
+c.ensures('message-names-the-line', "self._error_output == old(self._error_output) + '{}\\n'.format('Line {}: {}'.format(self._current_token._line_number, message))")
